@@ -26,6 +26,7 @@ static void h_run_case(hcase_t* c) {
   rt_reg((void*)&rb->high, 8, 0, 8);
   rt_reg((void*)&rb->low, 8, 1, 8);
   rt_reg(rb->buffer, sizeof(void*) * rb->size, 10, 8);
+  rt_reg_rest(rb, sizeof *rb + sizeof(void*) * rb->size, 3900);   /* search mode only: fields the model does not know */
   rt_run(c->nthreads, body, c->sched, c->nsched, dmax);
   rt_print_trace();
 }
